@@ -252,10 +252,38 @@ def parse_server_section(wd, username, password, sockname, inet_creds=None):
     return configs
 
 
+def parse_sections(wd, tag, sections, expansions=None):
+    """Any shape of server sections through the REAL config parser.
+    sections: list of (section name, {'username': text or None, 'password': text or None})
+    where the texts are written into the file verbatim (so %(ENV_X)s works with
+    `expansions`).  Returns the parsed configs (inet ports set to 0 = any free port)."""
+    from supervisor.options import ServerOptions, UnhosedConfigParser
+    text = ''
+    for i, (name, opts) in enumerate(sections):
+        text += '[%s]\n' % name
+        if name.startswith('unix_http_server'):
+            text += 'file=%s\n' % os.path.join(wd, '%s%d.sock' % (tag, i))
+        else:
+            text += 'port=127.0.0.1:%d\n' % (9001 + i)
+        for key in ('username', 'password'):
+            if opts.get(key) is not None:
+                text += '%s=%s\n' % (key, opts[key])
+        text += '\n'
+    parser = UnhosedConfigParser()
+    parser.expansions = dict(expansions or {})
+    parser.read_string(text)
+    configs = ServerOptions().server_configs_from_parser(parser)
+    for c in configs:
+        if c['family'] == socket.AF_INET:
+            c['port'] = 0
+    return configs, text
+
+
 class Testbed(object):
     """One make_http_servers() result with probes attached."""
 
-    def __init__(self, wd, username, password, tag='s', via_parser=True, inet_creds=None):
+    def __init__(self, wd, username, password, tag='s', via_parser=True, inet_creds=None, sections=None,
+                 expansions=None):
         from supervisor import http as shttp
         from supervisor.medusa import asyncore_25 as asyncore
         from supervisor import rpcinterface
@@ -279,7 +307,10 @@ class Testbed(object):
         self.proc.group = groups['g']
         opts = Options(wd, self.logger)
         self.sockname = os.path.join(wd, tag + '.sock')
-        if via_parser:
+        self.config_text = None
+        if sections is not None:
+            opts.server_configs, self.config_text = parse_sections(wd, tag, sections, expansions)
+        elif via_parser:
             opts.server_configs = parse_server_section(wd, username, password, self.sockname, inet_creds)
         else:
             opts.server_configs = [
@@ -314,7 +345,7 @@ class Testbed(object):
             self.chains.append(chain)
             self.inner_names = [n for n, _ in chain]
             if config['family'] == socket.AF_UNIX:
-                self.addrs.append((socket.AF_UNIX, self.sockname))
+                self.addrs.append((socket.AF_UNIX, config['file']))
             else:
                 self.addrs.append((socket.AF_INET, hs.socket.getsockname()))
         del self.access[:]
@@ -418,10 +449,12 @@ class Testbed(object):
                 obj.close()
             except Exception:
                 pass
-        try:
-            os.unlink(self.sockname)
-        except OSError:
-            pass
+        for fam, addr in self.addrs:
+            if fam == socket.AF_UNIX:
+                try:
+                    os.unlink(addr)
+                except OSError:
+                    pass
 
 
 def response_complete(buf):
